@@ -236,6 +236,16 @@ def rule_atomic(cx, tier):
                     not cfg.dominates(c2.bb, c1.bb) and _control_dependent(cfg, c1, c2):
                 dep = f"{act}() under the second guard is conditional on a test made under the first (check-then-act): " \
                       f"an update made by another runtime in between is lost"
+            if dep is None and c1.bb != c2.bb:
+                # (c) read-modify-write: what was read under the first acquisition is returned, or written back,
+                # while the container is modified under the second
+                derived = _forward(fn, {c1.dest[0]} if not c1.dest[1] else set())
+                into_ret = 0 in derived
+                into_act = any(op_base(a) in derived for a in c2.args[1:])
+                if (into_ret or into_act) and (act is None or act in ("insert", "remove", "push", "shift_remove")):
+                    dep = "a value read under the first acquisition is " + ("returned" if into_ret else "written back") + \
+                          " while the container is modified under the second (read-modify-write): two runtimes can both " \
+                          "read the same previous state"
             if dep is None:
                 r.sample({"fn": label, "pair": f"{c1.line}->{c2.line}", "action": act, "verdict": "no dependent use that "
                           "can fail or lose an update"}, limit=20)
@@ -290,6 +300,30 @@ def _action_on_guard(cx, fn, du, acq):
             nm = c.short.rsplit("::", 1)[-1]
             return nm
     return None
+
+
+def _forward(fn, seeds):
+    """locals data-dependent on the seeds (moves, copies, refs, aggregates, call results of calls taking them)"""
+    derived = set(seeds)
+    changed = True
+    while changed:
+        changed = False
+        for b in fn.blocks:
+            if b.cleanup:
+                continue
+            for st in b.stmts:
+                if st[0] != "a" or st[1][0] in derived:
+                    continue
+                from ..mir import rv_places
+                if any(pl[0] in derived for pl in rv_places(st[2])):
+                    derived.add(st[1][0])
+                    changed = True
+            t = b.term
+            if t[0] == "call" and t[1]["dest"][0] not in derived:
+                if any(op_base(a) in derived for a in t[1]["args"]):
+                    derived.add(t[1]["dest"][0])
+                    changed = True
+    return derived
 
 
 def _control_dependent(cfg, c1, c2):
